@@ -12,7 +12,8 @@
 
    Outside the model (explicit [Unmodelled] results, never silently totalised): time texts
    that are not in canonical RFC 3339 UTC form, non-ASCII case folding of keys, "version"
-   given as array/object, Changeset.Change (kept nil), duplicate keys other than last-wins. *)
+   given as array/object, Changeset.Change (kept nil), duplicate keys on struct / pointer / slice valued fields
+   (merged by encoding/json; scalar-like duplicates are modelled, see dec_occs). *)
 From Coq Require Import ZArith List String Ascii Bool DecimalString Decimal.
 From Verif Require Import C05.Json C05.Schema.
 From VerifGen Require Import GenJsonTags.
@@ -190,6 +191,33 @@ Fixpoint names (fs : list field) : list string :=
   | Field _ n _ ft :: r => match ft with TSkip => names r | _ => n :: names r end
   end.
 
+(* Duplicate keys.  encoding/json decodes every occurrence, in document order, into the same
+   target.  For the types below this is fully determined by the occurrences themselves:
+   each one REPLACES the value (an ill-typed one makes the whole decode fail, even if a later
+   one is fine), except that null leaves numbers, strings, bools, times and shims untouched
+   (it does reset interface{}, Tags and WayNodes).  For structs, pointers and slices a second
+   occurrence is MERGED into the first (fields of the first survive, slice elements are
+   reused): that is outside the model, the result is the explicit [Unmodelled]. *)
+Definition seq_type (t : ty) : bool :=
+  match t with
+  | TInt _ _ | TFloat | TBool | TStr | TTime | TDate | TShim _ | TAny | TTags | TWayNodes _ => true
+  | _ => false
+  end.
+Definition null_noop (t : ty) : bool :=
+  match t with
+  | TInt _ _ | TFloat | TBool | TStr | TTime | TDate | TShim _ => true
+  | _ => false
+  end.
+Definition dec_occs (d : json -> res val) (t : ty) (js : list json) : res val :=
+  match js with
+  | [] => Ok (zero t)                       (* absent: the field keeps its zero value *)
+  | [j] => d j
+  | _ => if seq_type t
+         then fold_left (fun cur j => rbind cur (fun c => if is_null j && null_noop t then Ok c else d j))
+                        js (Ok (zero t))
+         else Unmodelled
+  end.
+
 Fixpoint dec (t : ty) (j : json) {struct t} : res val :=
   match t with
   | TInt lo hi =>
@@ -246,10 +274,7 @@ Fixpoint dec (t : ty) (j : json) {struct t} : res val :=
                 | Field _ n _ ft :: fr =>
                     rbind (match ft with
                            | TSkip => Ok VUnit
-                           | _ => match lookup_f (names fs0) n kv with
-                                  | None => Ok (zero ft)
-                                  | Some x => dec ft x
-                                  end
+                           | _ => dec_occs (dec ft) ft (entries_f (names fs0) n kv)
                            end)
                           (fun v => rbind (go fr) (fun vs => Ok (v :: vs)))
                 end) fs0)
